@@ -395,3 +395,122 @@ Fixpoint wrap_escapes (ds : list pdir) (e : jexpr) : jexpr :=
 Definition cgen_print_expr (mode : N) (ds : list pdir) (e : jexpr) : jexpr :=
   let x := wrap_escapes ds e in
   match ds with [] => if mode =? 2 then x else JEEscapeHtml x | _ => x end.
+
+(* ---- statements: raw text, print, if / else ---- *)
+Inductive cstmt :=
+| SRaw (t : bstr)
+| SPrint (e : cexpr) (ds : list pdir)
+| SIf (c : cexpr) (th : list cstmt) (has_else : bool) (el : list cstmt).
+
+Fixpoint snode (s : cstmt) : node :=
+  match s with
+  | SRaw t => NRawText 0 t
+  | SPrint e ds => NPrint 0 (cnode e) (map pdir_node ds)
+  | SIf c th he el =>
+      NIf 0 (NIfCond 0 (Some (cnode c)) (NList 0 (map snode th))
+             :: (if he then [NIfCond 0 None (NList 0 (map snode el))] else []))
+  end.
+Fixpoint sdepth (s : cstmt) : nat :=
+  match s with
+  | SRaw _ => 1%nat
+  | SPrint e _ => S (S (cdepth e))
+  | SIf c th _ el =>
+      S (S (S (Nat.max (cdepth c)
+                 (Nat.max (fold_right (fun x acc => Nat.max (sdepth x) acc) 0%nat th)
+                          (fold_right (fun x acc => Nat.max (sdepth x) acc) 0%nat el)))))
+  end.
+
+Inductive jstmt :=
+| JSAppendLit (buf t : bstr)                                   (* buf += 'text'; *)
+| JSAppend (buf : bstr) (e : jexpr)                            (* buf += e; *)
+| JSIf (c : jexpr) (th : list jstmt) (has_else : bool) (el : list jstmt).   (* if (c) {..} [else {..}] *)
+
+(* the generator on statements, for a scope, an autoescape mode and a buffer variable
+   (a block pushes an empty scope frame: the variables found are the same) *)
+Fixpoint sgen (sc : list (list (bstr * bstr))) (mode : N) (buf : bstr) (s : cstmt) : jstmt :=
+  match s with
+  | SRaw t => JSAppendLit buf t
+  | SPrint e ds => JSAppend buf (cgen_print_expr mode ds (cgen sc e))
+  | SIf c th he el => JSIf (cgen sc c) (map (sgen sc mode buf) th) he (map (sgen sc mode buf) el)
+  end.
+
+Definition js_append_text (env : jenv) (buf t : bstr) : outcome jenv :=
+  match assoc_s buf (je_vars env) with
+  | Some (JStr old) => Ok {| je_vars := aset (je_vars env) buf (JStr (old ++ t)); je_data := je_data env |}
+  | _ => OutOfModel
+  end.
+
+Fixpoint js_exec (env : jenv) (s : jstmt) : outcome jenv :=
+  match s with
+  | JSAppendLit buf t => js_append_text env buf t
+  | JSAppend buf e => r <- js_append env buf e ;; Ok (snd r)
+  | JSIf c th he el =>
+      v <- js_eval env c ;;
+      let run := fix run (env : jenv) (l : list jstmt) : outcome jenv :=
+                   match l with [] => Ok env | x :: r => env' <- js_exec env x ;; run env' r end in
+      if js_truthy v then run env th else if he then run env el else Ok env
+  end.
+Fixpoint js_exec_list (env : jenv) (l : list jstmt) : outcome jenv :=
+  match l with [] => Ok env | x :: r => env' <- js_exec env x ;; js_exec_list env' r end.
+
+(* the Soy meaning: the bytes written (None = an error, or outside the subset) *)
+Definition scalar_string (v : value) : option bstr :=
+  match v with
+  | VStr s => Some s
+  | VInt z => Some (dec_of_Z z)
+  | VBool true => Some s_true
+  | VBool false => Some s_false
+  | VNull => Some s_null
+  | _ => None
+  end.
+Definition cleanb (s : bstr) : bool := forallb (fun c => negb (c =? 0) && negb (c =? 34)) s.
+
+Section Sout.
+  Variable ij : option value.
+  Variable env : bstr -> option value.
+  Variable mode : N.
+  Variable print_text : N -> list pdir -> bstr -> bstr.      (* go_print_text of Proofs/MiniJSStmt.v *)
+
+  Fixpoint sout (s : cstmt) : option bstr :=
+    match s with
+    | SRaw t => Some t
+    | SPrint e ds =>
+        match ceval ij env e with
+        | Some v => match scalar_string v with
+                    | Some str => if cleanb str then Some (print_text mode ds str) else None
+                    | None => None
+                    end
+        | None => None
+        end
+    | SIf c th he el =>
+        let run := fix run (l : list cstmt) : option bstr :=
+                     match l with
+                     | [] => Some []
+                     | x :: r => match sout x, run r with Some a, Some c => Some (a ++ c) | _, _ => None end
+                     end in
+        match ceval ij env c with
+        | Some v => if truthy v then run th else if he then run el else Some []
+        | None => None
+        end
+    end.
+  Fixpoint sout_list (l : list cstmt) : option bstr :=
+    match l with
+    | [] => Some []
+    | x :: r => match sout x, sout_list r with Some a, Some c => Some (a ++ c) | _, _ => None end
+    end.
+End Sout.
+
+(* the printer of statements at an indentation level: the chunks of JsGen *)
+Fixpoint sprint (ind : nat) (s : jstmt) : list chunk :=
+  match s with
+  | JSAppendLit buf t => [CText (indent_text ind); CName buf; CText t_pluseq; CStrLit 39 t; CText t_semi_nl]
+  | JSAppend buf e => [CText (indent_text ind); CName buf; CText t_pluseq] ++ jprint e ++ [CText t_semi_nl]
+  | JSIf c th he el =>
+      let body := fix body (l : list jstmt) : list chunk := match l with [] => [] | x :: r => sprint (S ind) x ++ body r end in
+      [CText (indent_text ind); CText t_if_open] ++ jprint c ++ [CText t_op_mid1; CText t_brace_nl] ++ body th
+      ++ [CText (indent_text ind); CText t_rbrace]
+      ++ (if he then [CText t_else; CText t_brace_nl] ++ body el ++ [CText (indent_text ind); CText t_rbrace] else [])
+      ++ [CText t_nl]
+  end.
+Fixpoint sprint_list (ind : nat) (l : list jstmt) : list chunk :=
+  match l with [] => [] | x :: r => sprint ind x ++ sprint_list ind r end.
